@@ -673,7 +673,12 @@ def verify_contract(I, c, timeout_ms=10000, only_case=None):
         res.status, res.message = 'undecided', 'function %s not found in %s (contract no longer attaches)' % (
             c.qualname, c.path)
         return res
-    I.loopspecs.setdefault((c.path, fn.qualname), {}).update(c.loops)
+    if getattr(c, 'unroll_own_loops', False):
+        # this contract's pre-state bounds the loops of the function itself (they are executed, not cut at the invariants
+        # another contract of the same function gave)
+        I.loopspecs[(c.path, fn.qualname)] = {}
+    else:
+        I.loopspecs.setdefault((c.path, fn.qualname), {}).update(c.loops)
     if c.loops:
         nloops = len([n for n in ast.walk(fn.node) if isinstance(n, (ast.While, ast.For))])
         for o in c.loops:
